@@ -19,10 +19,12 @@ def prepare(rnd, ids):
         tag = f"{pid}.r{rnd}"
         wt, out = f"{SEED}/{tag}", f"{SEED}/{tag}.out"
         lst = []
-        k = 1
-        while os.path.exists(f"/verif/seeded/{pid}-{k}/notes.md"):
-            lst.append("  - " + " ".join(open(f"/verif/seeded/{pid}-{k}/notes.md").read().split())[:400])
-            k += 1
+        last = 0
+        for k in range(1, 40):
+            if os.path.exists(f"/verif/seeded/{pid}-{k}/notes.md"):
+                lst.append("  - " + " ".join(open(f"/verif/seeded/{pid}-{k}/notes.md").read().split())[:400])
+                last = k
+        k = last + 1
         body = TEMPLATE.replace("{WT}", wt).replace("{OUT}", out).replace("{PROP}", prop_text(pid))
         if pid in ("C17", "C18"):
             body += SDP_NOTE.replace("{WT}", wt)
